@@ -4,7 +4,9 @@
 //
 //   obj (D0 D1 …) (A0 A1 …)
 //
-//   D    ::= (PARENT (ATTR*) EQ EIT SER)         definition i is named T<i>; PARENT ::= - | <index of an earlier definition>
+//   D    ::= (PARENT (ATTR*) EQ EIT SER [(k (NAME VAL)*)])
+//                                                definition i is named T<i>; PARENT ::= - | <index of an earlier definition>;
+//                                                the optional last element is `constants => {NAME => VAL, …}`
 //   ATTR ::= (NAME TY KIND DFLT [o] [f|nf])
 //                                                NAME: plain member name (atom); KIND ::= n | c | d | g | r
 //                                                (normal, constant, derived, given_or_derived, reference); DFLT ::= - | VAL;
@@ -134,8 +136,10 @@ func valOfPx(v px.Value) string {
 		return val{k: "b", b: v.Bool()}.String()
 	case *types.Hash:
 		// a hash where a value is expected: the argument of a named construction that fell through to the positional signature
+		// Hash equality does not depend on the order of the entries: printed (and identified by the model) sorted by key
 		xs := []string{}
 		v.EachPair(func(k, e px.Value) { xs = append(xs, " ("+k.String()+" "+valOfPx(e)+")") })
+		sort.Strings(xs)
 		return "(h" + strings.Join(xs, "") + ")"
 	}
 	if v == nil {
@@ -250,6 +254,7 @@ type def struct {
 	eit    string // - t f
 	ser    []string
 	hasSer bool
+	consts []attr // `constants => {name => value}`: kind c, dflt = the value, ty = the type inferred from it
 }
 
 type action struct {
@@ -304,10 +309,37 @@ func namesOf(es []sx.Sexp) []string {
 }
 
 func defOf(e sx.Sexp) def {
-	if !e.IsList || len(e.List) != 5 {
+	if !e.IsList || (len(e.List) != 5 && !(len(e.List) == 6 && e.List[5].Tag() == "k")) {
 		panic(fmt.Errorf("bad definition %s", e))
 	}
 	d := def{parent: -1}
+	if len(e.List) == 6 {
+		for _, kv := range e.List[5].Args() {
+			if !kv.IsList || len(kv.List) != 2 {
+				panic(fmt.Errorf("bad constant %s", kv))
+			}
+			v := valOf(kv.List[1])
+			var t *ty
+			switch v.k {
+			case "i":
+				t = &ty{k: "int"}
+			case "s":
+				t = &ty{k: "str"}
+			case "b":
+				t = &ty{k: "bool"}
+			default:
+				panic(fmt.Errorf("constant %s: the inferred type Undef is not in the alphabet", kv))
+			}
+			d.consts = append(d.consts, attr{name: nameOf(kv.List[0]), ty: t, kind: "c", dflt: &v})
+		}
+		ns := []string{}
+		for _, k := range d.consts {
+			ns = append(ns, k.name)
+		}
+		if repeats(ns) {
+			panic(fmt.Errorf("constants with a repeated key %s", e))
+		}
+	}
 	if p := e.List[0]; !(p.Atom == "-" && !p.IsList) {
 		d.parent = natOf(p)
 	}
@@ -494,7 +526,15 @@ func mkSpec(defs []def) *spec {
 			}
 			own[a.name] = true
 		}
-		for _, a := range d.attrs {
+		decls := append([]attr{}, d.attrs...)
+		for _, k := range d.consts {
+			if own[k.name] {
+				wf = false // both a constant and an attribute
+			}
+			_, k.override = inheritedIdx[k.name] // set by InitFromHash when the parent has a member of that name
+			decls = append(decls, k)
+		}
+		for _, a := range decls {
 			sa := sattr{attr: a, owner: i, ety: a.ty}
 			switch a.kind {
 			case "c":
@@ -666,6 +706,13 @@ func (d *def) text(name, parent string) string {
 		}
 		parts = append(parts, "attributes => {"+strings.Join(as, ", ")+"}")
 	}
+	if len(d.consts) > 0 {
+		var ks []string
+		for _, k := range d.consts {
+			ks = append(ks, quote(k.name)+" => "+k.dflt.text())
+		}
+		parts = append(parts, "constants => {"+strings.Join(ks, ", ")+"}")
+	}
 	qs := func(ns []string) string {
 		out := make([]string, len(ns))
 		for i, n := range ns {
@@ -748,6 +795,13 @@ func (d *def) initHash(name string, parent px.Type) *types.Hash {
 			as = append(as, types.WrapHashEntry2(a.name, types.WrapHash(fs)))
 		}
 		es = append(es, types.WrapHashEntry2("attributes", types.WrapHash(as)))
+	}
+	if len(d.consts) > 0 {
+		var ks []*types.HashEntry
+		for _, k := range d.consts {
+			ks = append(ks, types.WrapHashEntry2(k.name, k.dflt.px()))
+		}
+		es = append(es, types.WrapHashEntry2("constants", types.WrapHash(ks)))
 	}
 	switch d.eqKind {
 	case "s":
